@@ -129,6 +129,7 @@ pub fn run(run: &mut Run) -> PResult {
         }
         super::common::disturbance_pass(run, &sets, &|x| set_clause(*x), &|x| ("C14.bit_to_word".into(), json!({"set": format!("{:#x}", x)}), format!("{:#x}", x)))?;
     }
+    super::common::count_soak(run, "word <-> set conversions", (1 << 26) + (1 << 12), &soak_step)?;
     if let Err((sig, m)) = constant_clauses() {
         return run.violation("C14.constants", &sig, json!({"constant": sig}), &m);
     }
@@ -256,7 +257,10 @@ pub fn parse_set(v: &Value) -> Result<u64, String> {
 }
 
 pub fn check_case(clause: &str, case: &Value) -> Result<(), String> {
-    if clause.ends_with(".after_disturbance") || clause.ends_with(".concurrent") || clause.ends_with(".concurrent_cold_start") {
+    if clause.ends_with(".soak") {
+        return super::common::replay_soak(case, &soak_step);
+    }
+    if clause.ends_with(".after_disturbance") || clause.ends_with(".concurrent") || clause.ends_with(".concurrent_cold_start") || clause.ends_with(".after_repetition") {
         return super::common::replay_after_disturbance(case, check_case);
     }
     match clause {
@@ -279,4 +283,24 @@ pub fn check_case(clause: &str, case: &Value) -> Result<(), String> {
         }
         _ => Err(format!("unknown clause {}", clause)),
     }
+}
+
+/// soak step n: one conversion in each direction on a value derived from n
+pub fn soak_step(n: u64) -> Result<(), String> {
+    let c = card::DECK[(n % 52) as usize];
+    let w = if (n / 52) % 4 == 3 { c ^ (1 << ((n / 208) % 32)) } else { c };
+    if BinaryCard::from_ckc(w) != card::bit_of(w) {
+        return Err(format!("from_ckc({}) = {:#x}, expected {:#x}", hex(w), BinaryCard::from_ckc(w), card::bit_of(w)));
+    }
+    let x: u64 = match (n / 52) % 4 {
+        0 => 1u64 << (n % 64),
+        1 => (1u64 << (n % 52)) | (1u64 << ((n / 7) % 64)),
+        2 => (1u64 << (n % 52)) | (1u64 << ((n / 3) % 52)) | (1u64 << ((n / 11) % 52)),
+        _ => 0,
+    };
+    let want = if x.count_ones() == 1 && x.trailing_zeros() < 52 { card::DECK[51 - x.trailing_zeros() as usize] } else { 0 };
+    if CKCNumber::from_binary_card(x) != want {
+        return Err(format!("from_binary_card({:#x}) = {}, expected {}", x, card::render(CKCNumber::from_binary_card(x)), card::render(want)));
+    }
+    Ok(())
 }
